@@ -2660,6 +2660,15 @@ func (t *tr2) newLogDecl(f *ast.File) string {
 	return "def newLogCore (optClockTime : Option Int) (optHeads : List Entry) (optEntries : List Entry) : Int × List Entry × List Hash :=\n  (let next := ([] : List Hash); " + b + ")\n"
 }
 
+// cleanDecl: a failed special translation yields no definition of its own (the file's failure marker, emitted at the
+// end for every recorded error, keeps the generated file from elaborating)
+func cleanDecl(s string) string {
+	if strings.HasPrefix(strings.TrimSpace(s), "(untranslatable)") {
+		return "-- (not translated: see the UNTRANSLATABLE lines below)\n"
+	}
+	return s
+}
+
 func findMethod(f *ast.File, name string) *ast.FuncDecl {
 	for _, d := range f.Decls {
 		if fd, ok := d.(*ast.FuncDecl); ok && fd.Name.Name == name && fd.Recv != nil {
@@ -2717,23 +2726,23 @@ func renderSlices(repo string) map[string]string {
 			t.file = f
 			for _, n := range j.names {
 				if n == "#fromEntry" {
-					fmt.Fprintf(&b, "/-- `fromEntry` (%s): the fetch length, and what is made of the fetched entries -/\n%s\n", j.file, t.fromEntryDecls(f))
+					fmt.Fprintf(&b, "/-- `fromEntry` (%s): the fetch length, and what is made of the fetched entries -/\n%s\n", j.file, cleanDecl(t.fromEntryDecls(f)))
 					continue
 				}
 				if n == "#fromJSON" {
-					fmt.Fprintf(&b, "/-- `fromJSON` (%s): what is made of the fetched entries -/\n%s\n", j.file, t.fromJSONDecl(f))
+					fmt.Fprintf(&b, "/-- `fromJSON` (%s): what is made of the fetched entries -/\n%s\n", j.file, cleanDecl(t.fromJSONDecl(f)))
 					continue
 				}
 				if n == "#setIdentity" {
-					fmt.Fprintf(&b, "/-- `SetIdentity` (%s): the new clock -/\n%s\n", j.file, t.setIdentityDecl(f))
+					fmt.Fprintf(&b, "/-- `SetIdentity` (%s): the new clock -/\n%s\n", j.file, cleanDecl(t.setIdentityDecl(f)))
 					continue
 				}
 				if n == "#newLog" {
-					fmt.Fprintf(&b, "/-- `NewLog` (%s): clock time, heads and index keys from the options -/\n%s\n", j.file, t.newLogDecl(f))
+					fmt.Fprintf(&b, "/-- `NewLog` (%s): clock time, heads and index keys from the options -/\n%s\n", j.file, cleanDecl(t.newLogDecl(f)))
 					continue
 				}
 				if n == "#admission" {
-					fmt.Fprintf(&b, "/-- the admission test of `processQueue` (%s) -/\n%s\n", j.file, t.admissionDecl(f))
+					fmt.Fprintf(&b, "/-- the admission test of `processQueue` (%s) -/\n%s\n", j.file, cleanDecl(t.admissionDecl(f)))
 					continue
 				}
 				if i := strings.Index(n, "@"); i > 0 {
